@@ -2,7 +2,7 @@
    out.  Used by the extracted runner and by vm_compute replays. *)
 From Coq Require Import String.
 From SQLair.Base Require Import Bytes Sexp.
-From SQLair.Model Require Import Parser ParserDump Reflect TypeInfo Bind BindDump Iter IterDump Cache CacheDump Tx TxDump.
+From SQLair.Model Require Import Parser ParserDump Reflect TypeInfo Bind BindDump Iter IterDump Cache CacheDump Tx TxDump Scan ScanDump.
 
 Definition run_request (req : list sexp) : str :=
   match req with
@@ -32,7 +32,11 @@ Definition run_request (req : list sexp) : str :=
           | None =>
               match run_tx_line l with
               | Some out => out
-              | None => lit "BAD-REQUEST shape"
+              | None =>
+                  match run_scan_line l with
+                  | Some out => out
+                  | None => lit "BAD-REQUEST shape"
+                  end
               end
           end
       end
